@@ -149,6 +149,9 @@ fn grid(args: &Args) -> Vec<Layout> {
         let h = rng.usize(4, 5);
         g.push(Layout::Remote((0..h).map(|_| *rng.pick(&cores)).collect()));
     }
+    g.push(Layout::Remote(vec![2, 1, 1]));
+    g.push(Layout::Remote(vec![2, 2, 2, 2]));
+    g.push(Layout::Remote(vec![3, 1, 2]));
     g.push(Layout::Remote(vec![1, 1, 1, 1]));
     g.push(Layout::Remote(vec![1, 1, 1, 1, 1]));
     g.push(Layout::Remote(vec![8, 1, 8, 1, 8]));
@@ -364,8 +367,14 @@ pub fn run(args: &Args, report: &mut Report) {
                     let fed_blocks: HashSet<u64> = dumps[0].links.iter().map(|(_, t, _, _)| t.block_id).collect();
                     dumps[0].blocks.iter().filter(|b| fed_blocks.contains(&b.block_id)).any(|b| b.replicas.iter().any(|(c, _)| !with_input.contains(&c3(*c))))
                 };
-                if exec_budget > 0 && rng.chance(1, 40) && layout.total_cores() <= 9 && !name.starts_with("channel_sinks") && !orphan_consumers && idx > args.skip {
-                    exec_budget -= 1;
+                // configurations in which two replicas of a narrowed block on one host are fed by
+                // different remote hosts are always executed
+                let always = (name.starts_with("limited[") || name.starts_with("limited_then_shuffle["))
+                    && matches!(layout, Layout::Remote(c) if c == &vec![2, 1, 1] || c == &vec![2, 2, 2, 2] || c == &vec![3, 1, 2]);
+                if (always || (exec_budget > 0 && rng.chance(1, 40) && layout.total_cores() <= 9)) && !name.starts_with("channel_sinks") && !orphan_consumers && idx > args.skip {
+                    if !always {
+                        exec_budget -= 1;
+                    }
                     crate::report::RESUME_FROM.store(idx, std::sync::atomic::Ordering::SeqCst);
                     {
                         let (n2, l2) = (name.clone(), layout.name());
